@@ -339,7 +339,8 @@ class Ctx:
             elif not set(ax) <= ALLOWED_AXIOMS:
                 status = "bad-axioms"
             self.theorems.append({"name": n, "axioms": ax, "status": status,
-                                  "strength": "partial" if n.endswith("_partial") else "full"})
+                                  "strength": ("partial" if n.endswith("_partial") else
+                                               "witness" if re.search(r"counterexample|_witness|_example", n) else "full")})
             if status != "ok":
                 self.prove_ok = False
                 self.violation(f"audit:{n}", "audit", None, {"axioms": ax, "log_tail": out[-800:]},
